@@ -16,7 +16,10 @@ set_option maxRecDepth 20000
 namespace Stackage
 
 /-- no exported query of `Stack`/`Condition` reaches a write or a lock, by the regenerated call
-graph (`Transfer` writes its *destination* by design and is the one exception) -/
+graph (`Transfer` writes its *destination* by design and is the one exception). "A write" (extractor, `analyse`):
+a store through the receiver or its configuration, through a package-level variable, or through storage the function
+was handed - a slice / map / pointer parameter, or a local that aliases part of the receiver or of a parameter
+(`x, ok := r.ex.([]string); x[i] = …`): a helper that overwrites what it is given counts (seeded C11-15) -/
 theorem C11_no_writes :
     (stackMethods.filter (fun m => m.cls == .query && m.name != "Transfer")).all
       (fun m => match factOf "Stack" m.name with | some f => !f.reachWrite && !f.reachLock && !f.writes | none => false) = true ∧
